@@ -277,6 +277,14 @@ def parse_place(s):
     s = s.strip()
     if re.match(r"^_\d+$", s):
         return int(s[1:]), []
+    m = re.match(r"^(.*)\[(_\d+)\]$", s)
+    if m:
+        l, p = parse_place(m.group(1))
+        return l, p + [("index", int(m.group(2)[1:]))]
+    m = re.match(r"^(.*)\[(\d+) of (\d+)\]$", s)
+    if m:
+        l, p = parse_place(m.group(1))
+        return l, p + [("cindex", int(m.group(2)))]
     if s.startswith("(") and s.endswith(")"):
         inner = s[1:-1]
         if inner.startswith("*"):
@@ -538,6 +546,26 @@ class Ctx:
             raise Unsupported("read of unassigned local _%d in %s" % (l, fr["fn"].name))
         v = fr["vals"][l]
         for pr in proj:
+            if pr[0] == "index" or pr[0] == "cindex":
+                if not isinstance(v, Tup):
+                    raise Unsupported("index into a non-array")
+                if pr[0] == "cindex":
+                    v = v.items[pr[1]]
+                    continue
+                iv = fr["vals"].get(pr[1])
+                if not isinstance(iv, T):
+                    raise Unsupported("array index is not a scalar")
+                if iv.c is not None:
+                    v = v.items[iv.c]
+                    continue
+                items = v.items
+                if not all(isinstance(x, T) for x in items):
+                    raise Unsupported("symbolic index into an array of non-scalars")
+                acc = items[-1].s
+                for k in range(len(items) - 2, -1, -1):
+                    acc = "(ite (= %s %d) %s %s)" % (iv.s, k, items[k].s, acc)
+                v = T(acc, items[0].sort)
+                continue
             if pr[0] == "deref":
                 if isinstance(v, Ref):
                     v = self.read_place(v.frame, v.local, v.proj)
@@ -626,6 +654,16 @@ class Ctx:
             raise Unsupported("wrapping/unchecked arithmetic: " + rv)
         if rv.startswith("no_retag "):
             rv = rv[9:].strip()
+        m = re.match(r"^Len\((.*)\)$", rv)
+        if m:
+            l, proj = parse_place(m.group(1))
+            v = self.read_place(fr, l, proj)
+            if isinstance(v, Tup):
+                return I(len(v.items))
+            raise Unsupported("Len of a non-array")
+        m = re.match(r"^\[(.*); (\d+)\]$", rv)
+        if m:
+            return Tup([self.operand(fr, m.group(1))] * int(m.group(2)))
         if (rv.startswith("[") and rv.endswith("]")) or (rv.startswith("(") and rv.endswith(")") and ("," in rv) and not rv.startswith("((") and ": " not in rv.split(",")[0]):
             inner = rv[1:-1]
             return Tup([self.operand(fr, a) for a in split_top(inner)])
